@@ -19,8 +19,8 @@
 //!
 //! Two conventions are *not* fixed by the paper and are taken from the repository's documentation
 //! (`hash/poseidon/mod.rs`, `instructions/sponge.rs`); both are parameters here:
-//! * which cell gets the S-box in a partial round: the paper's figure draws it on the last cell,
-//!   the reference script `poseidonperm_x5_255_3.sage` uses cell 0; the repository documents the
+//! * which cell gets the S-box in a partial round: the paper does not number the cells, the
+//!   reference script `poseidonperm_x5_255_3.sage` uses cell 0; the repository documents the
 //!   last cell (`(x y z^5)·MDS`), see `Params::partial_sbox_index`;
 //! * the sponge framing (where the capacity cell lives, what it is initialised with, how the
 //!   streaming mode pads): see `hash_fixed` and `Sponge`.
